@@ -27,6 +27,9 @@ static const kw_t pool[] = { {"ABc", 2}, {"TEST", 4}, {"VOLTage", 4}, {"DC", 2},
                              {"CHANnel", 4}, {"OUTPut", 4}, {"FREQuency", 4}, {"Xy", 1}, {"ABC", 3}, {"VOLT", 4}, {"SYSTem", 4}, {"ERRor", 3}, {"NEXT", 4} };
 #define NPOOL (sizeof pool / sizeof pool[0])
 
+/* the caller's default for suffixes left out: small values and values that need all 32 bits */
+static int gen_default(void) { static const int big[] = {32767, 32768, -32768, -32769, 65535, 65536, 100000, -100000, 2147483647, (-2147483647 - 1)}; return h_chance(75) ? (int) h_below(5) - 1 : big[h_below(10)]; }
+
 static void emit(const char *pat, const char *hdr, size_t hl, unsigned len, int nn, int dflt) {
     char in[2300]; size_t k = 2, i;
     in[0] = 'M'; in[1] = ' ';
@@ -101,7 +104,7 @@ void dom_match(void) {
                   hdr[hl++] = h_chance(50) ? (char) tolower((unsigned char) *p) : *p; p++;
               } }
             if (h_chance(10) && hl) hl--;
-            emit(pat, hdr, hl, (unsigned) hl, h_chance(50) ? -1 : (int) h_below(4), (int) h_below(5) - 1);
+            emit(pat, hdr, hl, (unsigned) hl, h_chance(50) ? -1 : (int) h_below(4), gen_default());
             continue;
         }
         if (common) {
@@ -142,6 +145,6 @@ void dom_match(void) {
               const char *tl = tails[h_below(12)]; size_t tn = strlen(tl);
               if (hl + tn < sizeof hdr) { memcpy(hdr + hl, tl, tn); hl += tn; }
           }
-          emit(pat, hdr, hl, len, nn, (int) h_below(5) - 1); }
+          emit(pat, hdr, hl, len, nn, gen_default()); }
     }
 }
